@@ -5,13 +5,14 @@ from ..common import chunks, generic_replay, pool_map
 RULE = ('(prefix, message) pairs: prefix in {empty, every truncated encoding of a message of every type, garbage of '
         'length <= 3 over the byte-class alphabet, open sysex, random streams} x a message of every type; sysex messages '
         'with 0..3 real-time bytes (defined and undefined) at every insertion position for payload lengths 0..6; '
-        'concatenations of 1..12 random messages. Distinct by the byte string; all non-trivial')
+        'concatenations of 1..12 random messages; prefixes made of natural units (message cut short / complete message / stray bytes) fed to one Parser unit by unit. Distinct by the byte string; all non-trivial')
 
 
 def _case(c):
     """c = (prefix bytes, tail bytes, expected tail messages as canon text list)"""
     import mido
-    P, tail, expect = c
+    P, tail, expect = c[:3]
+    pieces = c[3] if len(c) > 3 else None
     try:
         a = mido.parse_all(P)
         b = mido.parse_all(P + tail)
@@ -23,6 +24,18 @@ def _case(c):
     if cb != ca + expect:
         fail = (f'parse_all(P + M) = {cb} but parse_all(P) = {ca} and the appended messages are {expect} '
                 f'(P={P}, appended bytes={tail})')
+    if fail is None and pieces is not None:
+        # the same bytes handed to one Parser piece by piece (the prefix in its natural units, then the message)
+        try:
+            p = mido.Parser()
+            for ch in pieces:
+                p.feed(ch)
+            cc = [msgs.canon_msg(m) for m in p]
+        except Exception as e:
+            return 'ok' + (' ' + ';'.join(cb) if cb else ''), f'feeding {pieces} piece by piece raised {type(e).__name__}: {e}'
+        if cc != ca + expect:
+            fail = (f'fed piece by piece {pieces} the parser yields {cc}; the messages of the prefix are {ca} and the appended '
+                    f'messages are {expect}')
     return 'ok' + (' ' + ';'.join(cb) if cb else ''), fail
 
 
@@ -68,6 +81,25 @@ def gen(ck):
                 expect.append(msgs.canon_vals('sysex', {'data': payload}))
                 for P in some_prefixes:
                     cases.append((P, [0xf0] + body + [0xf7], expect))
+    # prefixes made of natural units (a message cut short, a complete message, stray bytes), fed unit by unit
+    nonrt = [x for x in msgs.TYPE_NAMES if x not in msgs.REALTIME and x != 'tune_request']
+    for _ in range(1500 if not thorough else 20000):
+        units = []
+        for _u in range(rng.randint(1, 4)):
+            r = rng.random()
+            if r < 0.4:
+                tt, d = msgs.random_message(rng, types=nonrt, max_sysex=4)
+                enc = msgs.encode_ref(tt, d)
+                units.append(enc[:rng.randrange(1, len(enc))])
+            elif r < 0.75:
+                tt, d = msgs.random_message(rng, max_sysex=4)
+                units.append(msgs.encode_ref(tt, d))
+            else:
+                units.append([rng.choice([1, 2, 0x7f, 0xf7, 0xf4])] * rng.randint(1, 2))
+        tt, d = msgs.random_message(rng, max_sysex=4)
+        M = msgs.encode_ref(tt, d)
+        P = [b for u in units for b in u]
+        cases.append((P, M, [msgs.canon_vals(tt, d)], units + [M]))
     # concatenations
     for _ in range(2000 if not thorough else 30000):
         ms = [msgs.random_message(rng, max_sysex=5) for _ in range(rng.randint(1, 12))]
@@ -83,12 +115,12 @@ def run(ck):
     cases = gen(ck)
     res = [r for part in pool_map(_chunk, list(chunks(cases, 3000))) for r in part]
     reqs = []
-    for (P, tail, expect), (line, fail) in zip(cases, res):
+    for (P, tail, expect, *_pieces), (line, fail) in zip(cases, res):
         ck.note_case(bytes(P) + b'|' + bytes(tail))
         ck.count('prefix_len:%d' % min(len(P), 4))
         ck.count('appended_msgs:%d' % min(len(expect), 5))
         if fail:
-            ck.oracle_fail({'prefix': P, 'tail': tail, 'expect': expect}, fail)
+            ck.oracle_fail({'prefix': P, 'tail': tail, 'expect': expect, 'pieces': _pieces[0] if _pieces else None}, fail)
         reqs.append('parseall ' + ' '.join(map(str, P + tail)))
     for c in (cases[5], cases[len(cases) // 2], cases[-1]):
         ck.sample({'prefix': c[0], 'appended_bytes': c[1][:30], 'expected_messages': c[2][:6]})
@@ -97,7 +129,10 @@ def run(ck):
 
 
 def oracle(case):
-    return _case((case['prefix'], case['tail'], case['expect']))[1]
+    c = (case['prefix'], case['tail'], case['expect'])
+    if case.get('pieces'):
+        c = c + (case['pieces'],)
+    return _case(c)[1]
 
 
 def replay(ck, rp):
